@@ -320,7 +320,8 @@ def C38(ctx):
     typed = {n.split(":")[1] for n, _ in ok_scen if n.startswith("typed:")}
     need_typed = {"withdraw", "withdraw-xrd", "lock-fee-withdraw", "lock-fee-withdraw-xrd", "lock-fee-withdraw-fee-larger", "withdraw-nf",
                   "lock-fee-withdraw-nf", "lock-fee-then-withdraw", "contingent-fee-then-withdraw", "proof-then-withdraw",
-                  "proof-nf-then-withdraw-nf", "burn-then-withdraw", "two-withdrawals", "locker-claim", "locker-recover", "locker-claim-and-withdraw"}
+                  "proof-nf-then-withdraw-nf", "burn-then-withdraw", "two-withdrawals", "locker-claim", "locker-recover", "locker-claim-and-withdraw",
+                  "exact-withdraw", "exact-locker-claim", "exact-locker-recover"}
     if not need_typed <= typed:
         raise ToolError("typed account-method scenarios without a successful run: %s" % sorted(need_typed - typed))
     need_scen = {"take-equal:F", "take-less:F", "take-half:X", "take-equal:refund:X", "ids-all", "ids-some", "ids-none", "empty:take-all-deposit",
